@@ -21,7 +21,20 @@ let parse (s : string) : t =
       if !pos >= n then raise (Bad "unterminated string");
       (match S.get s !pos with
        | '"' -> fin := true
-       | '\\' -> incr pos
+       | '\\' ->
+         (* RFC 8259: only these escapes exist; \u needs four hex digits *)
+         incr pos;
+         if !pos >= n then raise (Bad "unterminated escape");
+         (match S.get s !pos with
+          | '"' | '\\' | '/' | 'b' | 'f' | 'n' | 'r' | 't' -> ()
+          | 'u' ->
+            if !pos + 4 >= n then raise (Bad "short \\u escape");
+            for i = 1 to 4 do
+              (match S.get s (!pos + i) with
+               | '0'..'9' | 'a'..'f' | 'A'..'F' -> ()
+               | _ -> raise (Bad "bad \\u escape"))
+            done
+          | _ -> raise (Bad "unknown escape"))
        | c when Char.code c < 0x20 -> raise (Bad "control char in string")
        | _ -> ());
       incr pos
